@@ -855,17 +855,24 @@ def rule_ex12(A: Analysis, rep, F: ExecFacts):
     ge = A.cfg(en, "plain")
     apps = [n for n in ge.nodes if n.kind == "stmt" and isinstance(n.ast, ast.Expr) and isinstance(n.ast.value, ast.Call) and
             isinstance(n.ast.value.func, ast.Attribute) and n.ast.value.func.attr == "append" and len(n.ast.value.args) == 1 and norm(n.ast.value.args[0]) == op]
-    if len(apps) == 2:
-        routed = {}
-        for n in apps:
-            gs = A.path_guards(ge, ge.entry, n, en)
-            if gs == [frozenset({("t(%s.parallelizable)" % op, True)})]:
-                routed["par"] = norm(n.ast.value.func.value)
-            elif gs == [frozenset({("t(%s.parallelizable)" % op, False)})]:
-                routed["seq"] = norm(n.ast.value.func.value)
-        if len(routed) == 2 and routed["par"] != routed["seq"]:
-            par_q, seq_q = routed["par"], routed["seq"]
-            ok = True
+    routed = {}
+    clash = False
+    for n in apps:
+        for c, v in A.rvalues(en, n.ast.value.func.value, n, ge, keep=lambda a: a == "t(%s.parallelizable)" % op):
+            key = None
+            if c == frozenset({("t(%s.parallelizable)" % op, True)}):
+                key = "par"
+            elif c == frozenset({("t(%s.parallelizable)" % op, False)}):
+                key = "seq"
+            if key is None or key in routed:
+                clash = True
+            else:
+                routed[key] = v
+    # exactly one append per call
+    once = all(not any(b is not a and b in ge.reach([m for (m, l) in a.succ if not is_exc(l)], skip_labels=is_exc) for b in apps) for a in apps)
+    if not clash and once and len(routed) == 2 and routed["par"] != routed["seq"]:
+        par_q, seq_q = routed["par"], routed["seq"]
+        ok = True
     rep.check(ok, "EX12", "enqueue routes by parallelizable", en.node, "parallelizable ops go to the parallel deque, others to the sequential deque",
               "enqueue_op does not route ops by `op.parallelizable` into two distinct queues")
     hp = A.fn(q + "has_parallelizable_ops")
@@ -1015,14 +1022,64 @@ def rule_ex14(A: Analysis, rep, F: ExecFacts):
     rep.expect_min("EX14", 4)
 
 
+def _pool_is_permutation(e: ast.expr, n: int) -> bool:
+    class Unsupported(Exception):
+        pass
+
+    def ev(x):
+        if isinstance(x, ast.Constant) and isinstance(x.value, int) and not isinstance(x.value, bool):
+            return x.value
+        if isinstance(x, ast.Constant) and x.value is None:
+            return None
+        if isinstance(x, (ast.Name, ast.Attribute)) and norm(x) in ("self._slots", "execution_slots", "self._execution_slots", "slots"):
+            return n
+        if isinstance(x, ast.UnaryOp) and isinstance(x.op, ast.USub):
+            return -ev(x.operand)
+        if isinstance(x, ast.BinOp) and isinstance(x.op, (ast.Add, ast.Sub)):
+            a, b = ev(x.left), ev(x.right)
+            return a + b if isinstance(x.op, ast.Add) else a - b
+        if isinstance(x, (ast.List, ast.Tuple)):
+            out = []
+            for el in x.elts:
+                if isinstance(el, ast.Starred):
+                    out.extend(ev(el.value))
+                else:
+                    out.append(ev(el))
+            return out
+        if isinstance(x, ast.Call) and isinstance(x.func, ast.Name) and x.func.id in ("list", "range", "reversed", "sorted", "tuple") and not x.keywords:
+            args = [ev(a) for a in x.args]
+            return list({"list": list, "range": range, "reversed": reversed, "sorted": sorted, "tuple": tuple}[x.func.id](*args))
+        if isinstance(x, ast.Subscript) and isinstance(x.slice, ast.Slice):
+            sl = x.slice
+            return ev(x.value)[slice(ev(sl.lower) if sl.lower else None, ev(sl.upper) if sl.upper else None, ev(sl.step) if sl.step else None)]
+        if isinstance(x, (ast.ListComp, ast.GeneratorExp)) and len(x.generators) == 1 and not x.generators[0].ifs and isinstance(x.generators[0].target, ast.Name):
+            it = ev(x.generators[0].iter)
+            var = x.generators[0].target.id
+            out = []
+            for item in it:
+                class Sub(ast.NodeTransformer):
+                    def visit_Name(self_, nm):
+                        return ast.Constant(value=item) if nm.id == var else nm
+                import copy as _c
+                out.append(ev(Sub().visit(_c.deepcopy(x.elt))))
+            return out
+        raise Unsupported(ast.dump(x)[:60])
+    try:
+        v = ev(e)
+    except (Unsupported, TypeError, ValueError):
+        return False
+    return isinstance(v, list) and sorted(v) == list(range(n))
+
+
 def rule_ex15(A: Analysis, rep, F: ExecFacts):
     stores = A.field_stores("conductor.execution.executor.Executor", "_available_slots")
     names = sorted(f.fq.rsplit(".", 1)[1] for (f, _s, _v) in stores)
     rep.check(names == ["__init__", "_reset"], "EX15", "pool (re)built only in init/reset", None, "", "_available_slots assigned in %s" % names, deep=False)
     for (f, s, v) in stores:
         tx = norm(v) if v is not None else "?"
-        ok = tx in ("list(reversed(range(self._slots)))", "list(range(self._slots))", "list(range(self._slots))[::-1]",
-                    "list(reversed(range(execution_slots)))", "list(range(execution_slots))")
+        # the initial pool, evaluated for a few slot counts: a pure expression over list/range/reversed/sorted and
+        # arithmetic on the slot count (nothing of the repository is executed)
+        ok = v is not None and all(_pool_is_permutation(A.expand(v, f), n) for n in (1, 2, 3, 5, 8))
         rep.check(ok, "EX15", "pool is a permutation of range(slots)", s, "the pool holds each slot number in [0, slots) once",
                   "pool initialised as `%s`" % tx)
     slots = A.field_stores("conductor.execution.executor.Executor", "_slots")
